@@ -600,7 +600,7 @@ func (w *world) waitQuiescent(op *opRun) {
 		w.mu.Lock()
 		delete(w.gated, w.objs[op.o-1].addr)
 		w.mu.Unlock()
-	case <-time.After(60 * time.Second):
+	case <-time.After(20 * time.Minute):
 		panic(fmt.Sprintf("operation on object %d neither reached a gate nor finished", op.o))
 	}
 }
